@@ -6,12 +6,18 @@ import samplib as S
 PID = "C03"
 LEVEL = "proof"
 NEED_RELEASE = True
-COQ_TARGETS = ["Props/C03.vo", "Props/C03_fp.vo", "Props/C03_support.vo", "Props/C03_refuted.vo"]
-PROPS_FILES = ["C03", "C03_fp", "C03_support", "C03_refuted"]
-THEOREMS = ["C03_frechet_refuted", "C03_frechet_except_known", "C03_gumbel_refuted", "C03_gumbel_except_known", "C03_beta_in_unit", "C03_gamma_nonneg", "C03_fingerprints", ]
+COQ_TARGETS = ["Props/C03.vo", "Props/C03_fp.vo", "Props/C03_support.vo", "Props/C03_refuted.vo", "Props/C03_discrete.vo"]
+PROPS_FILES = ["C03", "C03_fp", "C03_support", "C03_refuted", "C03_discrete"]
+THEOREMS = ["C03_frechet_refuted", "C03_frechet_except_known", "C03_gumbel_refuted", "C03_gumbel_except_known", "C03_beta_in_unit", "C03_gamma_nonneg", "C03_fingerprints",
+            "C03_geometric_support", "C03_zeta_support", "C03_zipf_support", "C03_poisson_support", "C03_binv_support", "C03_std_geometric_support"]
 TRUSTED_BASE = [
     "Coq 8.16.1 kernel; integer-exact support theorems (alias/tree indices: C08/C10) and ideal-real support theorems on the "
     "sampler models (Proofs/Support.v) — the models are tied to the code by C01's pathwise correspondence",
+    "Props/C03_discrete.v (Proofs/SupportDiscrete.v): on the EXECUTABLE discrete models of Model/Discrete.v (the trees C02's pathwise "
+    "correspondence runs against the crate) every returned value is in the support and the panic marker (failure code 3: u64 underflow, "
+    "`1 << 64`, overflowing add, f64_to_u64 assertion, negative table index) is unreachable, for every word list and all valid parameters: "
+    "StandardGeometric, Geometric (k <= 54, (d << k) + m fits), Zeta, Zipf (integer n, every s >= 0: result in [1, n]), Poisson (Knuth and "
+    "Ahrens-Dieter PD: step F's index >= 0), Binomial BINV (walk stops at x <= n, so n - sample cannot underflow); BTPE / HIN / H2PE: see the file",
     "the IEEE-level part of this property (what a float program returns when a draw is exactly 0, 1/2 or its maximum) is decided by "
     "the DIRECT ORACLE on the real code, not by a theorem: support predicate + catch_unwind over the single-word-adversarial lattice "
     "(DESIGN.md App. D) x parameter points of envelope E, and the exhaustive sweep of all 2^24 high-bit patterns of one word for "
